@@ -56,6 +56,9 @@ def generate(r, tier):
                 history.append({"id": "p.f", "fn": u["fn"], "obj": u["obj"], "body": {"pause": [1], "fault": {"kind": "cancel", "pos": r.choice(["pre", "post"])}}})
             else:
                 history.append(gen.gen_ticket(r, "p.f", units, dict(profile, p_fault=1.0, p_nested=0.0)))
+    if world.get("classes") and r.random() < 0.4:
+        # the parent also constructs an object of its own before the children are created
+        history.insert(r.randint(0, len(history)), {"id": "p.n", "fn": "__init__", "op": "new", "cls": r.choice(world["classes"])["name"], "obj": "pn0"})
     actors = []
     for i in range(r.randint(2, 4)):
         name = "a%d" % (i + 1)
@@ -75,6 +78,17 @@ def generate(r, tier):
             scn["poke_after_history"] = pk
     if r.random() < 0.4:
         scn["parent_script"] = [gen.gen_ticket(r, "p.c%d" % j, units, profile) for j in range(r.randint(1, 2))]
+    afuncs = [u for u in units if u["obj"] is None and u["async"]]
+    if engine == "loop" and afuncs and r.random() < 0.3:
+        # some children are created by the BODY of a checked function of the parent (fire-and-forget / fan-out from a handler):
+        # their contexts are copies taken while that call is in flight - the function's own contracts are not being evaluated then
+        u = hot if (hot["obj"] is None and hot["async"]) else r.choice(afuncs)
+        host = gen.gen_ticket(r, "p.h", [u], dict(profile, p_falsy=0.0, p_fault=0.0, p_nested=0.0), u=u)
+        host.setdefault("body", {}).setdefault("nested", []).append({"hook": "spawn_children"})
+        scn["body_host"] = host
+        for a in actors:
+            if r.random() < 0.6:
+                a["ctx"] = "copied_in_body"
     if engine == "threads":
         scn["line_level"] = r.random() < 0.35
         n = 400 if scn["line_level"] else 80
@@ -88,6 +102,8 @@ def all_tickets(scn):
     if scn.get("poke_after_history"):
         res.append({"poke": scn["poke_after_history"]})
     res += list(scn.get("parent_script") or [])
+    if scn.get("body_host"):
+        res.append(scn["body_host"])
     for a in scn.get("actors") or []:
         res += list(a.get("script") or [])
     return res
@@ -121,8 +137,20 @@ def _conc_loop(scn):
         if scn.get("poke_after_history"):
             common.apply_poke(run, {"poke": scn["poke_after_history"]})
         tasks = []
+
+        spawned = set()
+
+        def spawn_children():
+            for a in actors:
+                if a.get("ctx") == "copied_in_body" and a["name"] not in spawned:
+                    spawned.add(a["name"])
+                    tasks.append(loop.create_task(child(a), name=a["name"], context=contextvars.copy_context()))
+
+        run.hooks["spawn_children"] = spawn_children
         for a in actors:
             mode = a.get("ctx", "fresh")
+            if mode == "copied_in_body":
+                continue
             if mode == "fresh":
                 ctx = contextvars.Context()
             elif mode == "copied_before":
@@ -132,6 +160,9 @@ def _conc_loop(scn):
             tasks.append(loop.create_task(child(a), name=a["name"], context=ctx))
         for td in scn.get("parent_script") or []:
             await do(td)
+        if scn.get("body_host"):
+            await do(scn["body_host"])
+            spawn_children()  # (the body was not reached, e.g. the call itself was rejected: the children start from here instead)
         await asyncio.gather(*tasks)
 
     _, vt = simloop.run_in_loop(main, contextvars.Context())
